@@ -196,6 +196,8 @@ type World struct {
 	// MaxEnabled is the largest number of alternatives seen.
 	MaxEnabled int
 	rootSpawns int
+	// Hooks are the function-entry observations of this execution.
+	Hooks []HookEvent
 	hashers    []stateHasher
 	words      map[interface{}]uint64
 }
